@@ -240,3 +240,52 @@ func VerifC48_IntersectSub() {
 		verifrt.Reach("intersect")
 	}
 }
+
+// VerifC48_GrowWhileInUse: the index grows while the set already has members: Set/Delete operations,
+// then another index file with 1..X entries (blob IDs 1..3, one pack each; more entries than the
+// index had so far are possible) is loaded and merged, then more operations. Members keep their
+// identity and value across the growth. All blobs share one hash bucket here (a constant hash
+// function is a valid hash function), so copies of one blob can be separated by another blob in the
+// bucket chain.
+func VerifC48_GrowWhileInUse() {
+	t := restic.DataBlob
+	mi := verifC48Index(t)
+	verifrt.Stub("(*internal/repository/index.indexMap).hash", func(*indexMap, restic.ID) uint { return 0 })
+	a := NewAssociatedSet[uint8](mi)
+	ref := &verifC48Ref{}
+	apply := func(max int, tag string) {
+		n := verifrt.Int(tag, 0, max)
+		for i := 0; i < n; i++ {
+			h := verifC48Handle(t, false)
+			if verifrt.Bool("opDelete") {
+				a.Delete(h)
+				ref.del(h)
+			} else {
+				v := verifrt.Byte("opVal")
+				a.Set(h, v)
+				ref.set(h, v)
+			}
+		}
+	}
+	apply(verifrt.Param("ops", 2), "opsBefore")
+	verifC48Check(a, ref, "before the index grows")
+
+	f3 := NewIndex()
+	nx := verifrt.Int("extEntries", 1, verifrt.Param("ext", 3))
+	for i := 0; i < nx; i++ {
+		f3.StorePack(verifC48Pack(byte(5+i)), pack.Blobs{verifC48Blob(verifC48ID("extendID", 3), t, 0)})
+	}
+	f3.Finalize()
+	verifrt.Assert(f3.SetID(verifC48Pack(103)) == nil, "SetID failed")
+	mi.Insert(f3)
+	verifrt.Assert(mi.MergeFinalIndexes() == nil, "MergeFinalIndexes failed")
+	verifC48Check(a, ref, "after the index grew")
+
+	apply(1, "opsAfter")
+	verifC48Check(a, ref, "after operations on the grown index")
+	q := verifC48Handle(t, false)
+	verifrt.Assert(a.Has(q) == ref.Has(q), "Has() differs from membership after the index grew")
+	if len(ref.m) > 0 {
+		verifrt.Reach("members-across-growth")
+	}
+}
